@@ -50,7 +50,23 @@ def corpus():
         ("y.o", "".join(func_obj(s, [f"und{i % 3}"]) + f".weak und{i % 3}\n"
                         for i, s in enumerate(syms[half:])))],
         extra=["-shared", "--build-id=fast", "--hash-style=both"])
-    # COMDAT duplicates + .eh_frame from several objects (compiled C).
+    # Exported symbols whose 32-bit GNU hashes collide pairwise ("..az.." / "..bY.." have equal
+    # dl_new_hash), defined in different objects and made dynamic in different ways: any order
+    # among equal (bucket, hash) keys that is left to arrival order shows in .dynsym / .gnu.hash.
+    pairs = [(f"k{i}_az", f"k{i}_bY") for i in range(4)] + [("azq", "bYq")]
+    xa = [p[i % 2] for i, p in enumerate(pairs)]
+    xb = [p[(i + 1) % 2] for i, p in enumerate(pairs)]
+    c["collide"] = dict(objs=[
+        ("ca.o", "".join(func_obj(s, [xb[(i + 1) % len(xb)]]) for i, s in enumerate(xa))),
+        ("cb.o", "".join(func_obj(s, []) for s in xb))],
+        extra=["-shared", "--build-id=fast", "--hash-style=gnu"])
+    # The same pairs in a PIE, exported only because a shared library refers to them.
+    c["collide-pie"] = dict(objs=[
+        ("cm.o", func_obj("_start", [xa[0], xb[1], "dep_fn"])),
+        ("ca2.o", "".join(func_obj(s, []) for s in xa)),
+        ("cb2.o", "".join(func_obj(s, [xa[(i + 2) % len(xa)]]) for i, s in enumerate(xb)))],
+        dso=("libdep.so", func_obj("dep_fn", [n for p in pairs for n in reversed(p)])),
+        extra=["-pie", "--build-id=fast", "--hash-style=gnu", "--no-gc-sections"])
     return c
 
 
@@ -64,6 +80,14 @@ def materialise(name, spec, base):
         if not os.path.exists(apath):
             subprocess.run(["ar", "rcD", aname, *mpaths], cwd=d, check=True)
         objs = objs + [aname]
+    if "dso" in spec:
+        sname, src = spec["dso"]
+        spath = os.path.join(d, sname)
+        if not os.path.exists(spath):
+            (sobj,) = graph_program([(sname + ".o", src)], d)
+            subprocess.run(["ld", "-shared", "-o", sname, sobj, "--hash-style=gnu"], cwd=d,
+                           check=True)
+        objs = objs + [sname]
     return d, objs
 
 
